@@ -52,6 +52,16 @@ chk("C04", "exploration",
     "Reference models encode my reading of the statement; forms the statement is silent about (sign before 0x/0b, upper-case prefixes, inf/nan, hex floats, underflow) are explicit don't-cares.",
     "deterministic simulation: ambient-errno fault injection with differential oracles (O-errno, O-scrub) plus reference conversion models", "7/C04")
 
+chk("C09", "exploration",
+    "Seeded operation histories (3-30 calls: typed setters by name/by option with index, list set/append, bulk string set, titled-section add, remove by index/title/path, deliberately illegal calls) from the pristine state or a state produced by an accepted parse, for one or two interleaved clients, stepped in lock-step against a small executable abstract store (ordered value sequence per option, ordered title-keyed section sequence per section option): after every call the return value and the observable projection (sizes, values, titles in order, modified flags) must match the model; every client's outcomes must equal its solo run.",
+    "Sequential refinement against a reference model over sampled histories; no fault is injected for this property (the scheduler contributes the two-client interleaving only). Rules the statement is silent about are explicit don't-cares listed in the evidence assumptions.",
+    "deterministic simulation: seeded API histories checked by refinement against an executable reference model, two-client interleaving vs solo runs", "7/C09")
+
+chk("C10", "exploration",
+    "Seeded histories bring options into the state classes {pristine default, explicitly set, emptied, annotated, list of n, sections present}; then refusing calls are injected: bulk set with the unconvertible element at the first/middle/last position, by-name setter vetoed by a simulator pre-set validator (scalar and list), wrong-type setter, index beyond a scalar, duplicate title, removal of a missing index/title/path, unconvertible set-from-text on scalars and lists, section calls on value options, unknown name. Every refusing call must report failure and the whole context tree (values, order, annotation, reset/modified markers of every option) must be identical before and after.",
+    "Sampling over (state class x refusal kind x position); the snapshot is taken through public getters and public flag bits.",
+    "deterministic simulation: refusal injection (vetoing callback party, poisoned element at a chosen position, illegal request) with snapshot oracle", "7/C10")
+
 PENDING = {}  # id -> reason (checks not built yet)
 
 def main():
